@@ -291,4 +291,167 @@ theorem lehmerExtFrontier_contract {lhs rhs : Nat} (hr : 0 < rhs) (hlt : rhs < l
       rw [Nat.cast_sub hsub]; push_cast; rw [e, Int.toNat_of_nonneg hs']; linarith
     exact_mod_cast this
 
+-- ---------------------------------------------------------------- the two-width Euclid of u128
+
+theorem xgcdLoopWide_spec (H A B : Nat) :
+    ∀ (fuel lastR r : Nat) (lastS s lastT t : Int), r < fuel → 0 < r →
+      (lastR : Int) = A * lastS + B * lastT → (r : Int) = A * s + B * t →
+      Nat.gcd lastR r = Nat.gcd A B →
+      ((0 ≤ lastS ∧ s ≤ 0 ∧ lastT ≤ 0 ∧ 0 ≤ t) ∨ (lastS ≤ 0 ∧ 0 ≤ s ∧ 0 ≤ lastT ∧ t ≤ 0)) →
+      let res := xgcdLoopWide H fuel lastR r lastS s lastT t
+      res.1 = Nat.gcd A B ∧ (res.1 : Int) = A * res.2.1 + B * res.2.2 ∧
+      ((res.2.1 ≤ 0 ∧ 0 ≤ res.2.2) ∨ (0 ≤ res.2.1 ∧ res.2.2 ≤ 0)) := by
+  intro fuel
+  induction fuel with
+  | zero => intro lastR r _ _ _ _ h; omega
+  | succ n ih =>
+    intro lastR r lastS s lastT t hfuel hr h1 h2 hg hsign
+    unfold xgcdLoopWide
+    simp only []
+    have hdm := Nat.div_add_mod lastR r
+    have hmod : lastR - lastR / r * r = lastR % r := by
+      have := Nat.mod_add_div lastR r
+      rw [Nat.mul_comm] at this; omega
+    rw [hmod]
+    have hq : (0 : Int) ≤ ((lastR / r : Nat) : Int) := Int.natCast_nonneg _
+    have hlt : lastR % r < r := Nat.mod_lt _ hr
+    have hdone : lastR % r = 0 → (r = Nat.gcd A B ∧ (r : Int) = A * s + B * t ∧
+        ((s ≤ 0 ∧ 0 ≤ t) ∨ (0 ≤ s ∧ t ≤ 0))) := by
+      intro h0
+      refine ⟨?_, h2, ?_⟩
+      · rw [← hg, Nat.gcd_comm, Nat.gcd_rec, h0, Nat.gcd_zero_left]
+      · rcases hsign with ⟨_, hs, _, ht⟩ | ⟨_, hs, _, ht⟩
+        · left; exact ⟨hs, ht⟩
+        · right; exact ⟨hs, ht⟩
+    have hrem : ((lastR % r : Nat) : Int) = A * (lastS - ↑(lastR / r) * s) + B * (lastT - ↑(lastR / r) * t) := by
+      have : ((lastR % r : Nat) : Int) = lastR - (lastR / r : Nat) * r := by
+        have := congrArg (fun x : Nat => (x : Int)) hdm
+        push_cast at this ⊢
+        linarith
+      rw [this, h1, h2]; ring
+    have hg' : Nat.gcd r (lastR % r) = Nat.gcd A B := by
+      rw [← hg, Nat.gcd_comm lastR r, Nat.gcd_rec r lastR, Nat.gcd_comm]
+    have hsign' : ((0 ≤ s ∧ (lastS - ↑(lastR / r) * s) ≤ 0 ∧ t ≤ 0 ∧ 0 ≤ (lastT - ↑(lastR / r) * t)) ∨
+        (s ≤ 0 ∧ 0 ≤ (lastS - ↑(lastR / r) * s) ∧ 0 ≤ t ∧ (lastT - ↑(lastR / r) * t) ≤ 0)) := by
+      rcases hsign with ⟨h1', h2', h3', h4'⟩ | ⟨h1', h2', h3', h4'⟩
+      · right
+        refine ⟨h2', ?_, h4', ?_⟩
+        · have := mul_nonpos_of_nonneg_of_nonpos hq h2'; linarith
+        · have := mul_nonneg hq h4'; linarith
+      · left
+        refine ⟨h2', ?_, h4', ?_⟩
+        · have := mul_nonneg hq h2'; linarith
+        · have := mul_nonpos_of_nonneg_of_nonpos hq h4'; linarith
+    split
+    · -- still wider than the half width: a plain Euclid step
+      split
+      · rename_i h0; exact hdone h0
+      · rename_i h0
+        exact ih r (lastR % r) s _ t _ (by omega) (Nat.pos_of_ne_zero h0) h2 hrem hg' hsign'
+    · split
+      · rename_i h0; exact hdone h0
+      · rename_i h0
+        -- forward to the half-width loop on (r, new_r) and recombine
+        have hin := xgcdLoop_init (a := r) (b := lastR % r) (Nat.pos_of_ne_zero h0)
+        generalize xgcdLoop (lastR % r + 1) r (lastR % r) 1 0 0 1 = inner at hin
+        obtain ⟨g, cx, cy⟩ := inner
+        obtain ⟨i1, i2, i3⟩ := hin
+        simp only [] at i1 i2 i3 ⊢
+        refine ⟨by rw [i1, hg'], ?_, ?_⟩
+        · rw [i2, h2, hrem]; ring
+        · rcases hsign' with ⟨s1, s2, t1, t2⟩ | ⟨s1, s2, t1, t2⟩ <;> rcases i3 with ⟨c1, c2⟩ | ⟨c1, c2⟩
+          · left
+            constructor
+            · have := mul_nonpos_of_nonpos_of_nonneg c1 s1
+              have := mul_nonpos_of_nonneg_of_nonpos c2 s2; linarith
+            · have := mul_nonneg_of_nonpos_of_nonpos c1 t1
+              have := mul_nonneg c2 t2; linarith
+          · right
+            constructor
+            · have := mul_nonneg c1 s1
+              have := mul_nonneg_of_nonpos_of_nonpos c2 s2; linarith
+            · have := mul_nonpos_of_nonneg_of_nonpos c1 t1
+              have := mul_nonpos_of_nonpos_of_nonneg c2 t2; linarith
+          · right
+            constructor
+            · have := mul_nonneg_of_nonpos_of_nonpos c1 s1
+              have := mul_nonneg c2 s2; linarith
+            · have := mul_nonpos_of_nonpos_of_nonneg c1 t1
+              have := mul_nonpos_of_nonneg_of_nonpos c2 t2; linarith
+          · left
+            constructor
+            · have := mul_nonpos_of_nonneg_of_nonpos c1 s1
+              have := mul_nonpos_of_nonpos_of_nonneg c2 s2; linarith
+            · have := mul_nonneg c1 t1
+              have := mul_nonneg_of_nonpos_of_nonpos c2 t2; linarith
+
+theorem xgcdLoopWide_init (H : Nat) {a b : Nat} (hb : 0 < b) :
+    let res := xgcdLoopWide H (b + 1) a b 1 0 0 1
+    res.1 = Nat.gcd a b ∧ (res.1 : Int) = a * res.2.1 + b * res.2.2 ∧
+    ((res.2.1 ≤ 0 ∧ 0 ≤ res.2.2) ∨ (0 ≤ res.2.1 ∧ res.2.2 ≤ 0)) :=
+  xgcdLoopWide_spec H a b (b + 1) a b 1 0 0 1 (by omega) hb (by ring) (by ring) rfl
+    (Or.inl ⟨by decide, by decide, by decide, by decide⟩)
+
+/-- `impl ExtendedGcd for u128` -/
+theorem xgcdPrimWide_spec (H a b : Nat) :
+    (a = 0 ∧ b = 0 → xgcdPrimWide H a b = .error .gcdZeroZero) ∧
+    (¬ (a = 0 ∧ b = 0) → ∃ res, xgcdPrimWide H a b = .ok res ∧ IsXgcd a b res) := by
+  constructor
+  · intro h; simp [xgcdPrimWide, h]
+  · intro h
+    unfold xgcdPrimWide
+    rw [if_neg h]
+    by_cases ha : a = 0
+    · subst ha
+      rw [if_pos rfl]
+      exact ⟨_, rfl, by simp [IsXgcd]⟩
+    · rw [if_neg ha]
+      by_cases hb : b = 0
+      · subst hb
+        rw [if_pos rfl]
+        exact ⟨_, rfl, by simp [IsXgcd]⟩
+      · rw [if_neg hb]
+        simp only []
+        obtain ⟨⟨ca, hca⟩, ⟨cb, hcb⟩⟩ := two_pow_min_tz_dvd (Nat.pos_of_ne_zero ha) (Nat.pos_of_ne_zero hb)
+        generalize min (trailingZeros a) (trailingZeros b) = sh at hca hcb
+        have hp : 0 < 2 ^ sh := Nat.two_pow_pos _
+        have ea : a / 2 ^ sh = ca := by rw [hca, Nat.mul_div_cancel_left _ hp]
+        have eb : b / 2 ^ sh = cb := by rw [hcb, Nat.mul_div_cancel_left _ hp]
+        rw [ea, eb]
+        have hca' : a = ca * 2 ^ sh := by rw [hca, Nat.mul_comm]
+        have hcb' : b = cb * 2 ^ sh := by rw [hcb, Nat.mul_comm]
+        have hcapos : 0 < ca := by
+          apply Nat.pos_of_ne_zero; intro h0; rw [h0] at hca'; simp at hca'; exact ha hca'
+        have hcbpos : 0 < cb := by
+          apply Nat.pos_of_ne_zero; intro h0; rw [h0] at hcb'; simp at hcb'; exact hb hcb'
+        rw [hca', hcb']
+        split
+        · split
+          · rename_i h1
+            subst h1
+            refine ⟨_, rfl, ?_⟩
+            have : IsXgcd ca 1 (1, 0, 1) := by simp [IsXgcd]
+            simpa using this.scale (sh := sh)
+          · have := xgcdLoopWide_init H (a := ca) hcbpos
+            generalize xgcdLoopWide H (cb + 1) ca cb 1 0 0 1 = res at this
+            obtain ⟨g, s, t⟩ := res
+            exact ⟨_, rfl, IsXgcd.scale this⟩
+        · split
+          · rename_i h1
+            subst h1
+            refine ⟨_, rfl, ?_⟩
+            have : IsXgcd 1 cb (1, 1, 0) := by simp [IsXgcd]
+            simpa using this.scale (sh := sh)
+          · have := xgcdLoopWide_init H (a := cb) hcapos
+            generalize xgcdLoopWide H (ca + 1) cb ca 1 0 0 1 = res at this
+            obtain ⟨g, s, t⟩ := res
+            obtain ⟨h1, h2, h3⟩ := this
+            simp only [] at h1 h2 h3
+            refine ⟨_, rfl, IsXgcd.scale ⟨?_, ?_, ?_⟩⟩
+            · simp only []; rw [h1, Nat.gcd_comm]
+            · simp only []; rw [h2]; ring
+            · simp only []; rcases h3 with ⟨x, y⟩ | ⟨x, y⟩
+              · right; exact ⟨y, x⟩
+              · left; exact ⟨y, x⟩
+
 end Dashu.Model.NT
